@@ -165,6 +165,9 @@ class InProtocolBase(ProtocolMixin):
         except TypeError:
             logger.error("Invalid value %r", value)
             raise
+        except (OverflowError, ValueError, OSError) as e:
+            # a number that is not the timestamp of any datetime
+            raise ValidationError(value, "%%r: %r" % e)
 
     def _datetime_from_sec_float(self, cls, value):
         try:
@@ -172,6 +175,9 @@ class InProtocolBase(ProtocolMixin):
         except TypeError:
             logger.error("Invalid value %r", value)
             raise
+        except (OverflowError, ValueError, OSError) as e:
+            # a number that is not the timestamp of any datetime
+            raise ValidationError(value, "%%r: %r" % e)
 
     def _datetime_from_msec(self, cls, value):
         try:
@@ -179,6 +185,9 @@ class InProtocolBase(ProtocolMixin):
         except TypeError:
             logger.error("Invalid value %r", value)
             raise
+        except (OverflowError, ValueError, OSError) as e:
+            # a number that is not the timestamp of any datetime
+            raise ValidationError(value, "%%r: %r" % e)
 
     def _datetime_from_msec_float(self, cls, value):
         try:
@@ -186,6 +195,9 @@ class InProtocolBase(ProtocolMixin):
         except TypeError:
             logger.error("Invalid value %r", value)
             raise
+        except (OverflowError, ValueError, OSError) as e:
+            # a number that is not the timestamp of any datetime
+            raise ValidationError(value, "%%r: %r" % e)
 
     def _datetime_from_usec(self, cls, value):
         try:
@@ -193,6 +205,9 @@ class InProtocolBase(ProtocolMixin):
         except TypeError:
             logger.error("Invalid value %r", value)
             raise
+        except (OverflowError, ValueError, OSError) as e:
+            # a number that is not the timestamp of any datetime
+            raise ValidationError(value, "%%r: %r" % e)
 
     def create_in_document(self, ctx, in_string_encoding=None):
         """Uses ``ctx.in_string`` to set ``ctx.in_document``."""
